@@ -748,6 +748,14 @@ def case_rnd(case, salt=0):
     return random.Random(int(h[:16], 16))
 
 
+def sub_case(c, file=None, txns=None):
+    """A case derived from c (other file and/or transactions), keeping its kind and supplemental data."""
+    out = {'kind': c['kind'], 'file': c['file'] if file is None else file, 'txns': c['txns'] if txns is None else txns}
+    if 'ds' in c:
+        out['ds'] = c['ds']
+    return out
+
+
 def job_of(case, oracle=False, norm=True):
     """case = {'kind': 'rules'|'csv', 'file': generator dict, 'txns': [...]}"""
     ds = case.get('ds', DS)        # None: no supplemental data sources (list-valued {.. for r in extra} tags are then unevaluable)
@@ -764,7 +772,11 @@ def run_two_phase(cases, variants_fn, oracle=True, norm=True, tag='engine'):
     for ci, (c, jr) in enumerate(zip(cases, base)):
         if 'parse_error' in jr or 'harness_error' in jr:
             continue
-        reqs += variants_fn(ci, c, jr)
+        new = variants_fn(ci, c, jr)
+        if 'ds' in c:
+            for r in new:
+                r['case']['ds'] = c['ds']      # variants run with the same supplemental data as their base
+        reqs += new
     vres = run_jobs([job_of(r['case'], r.get('oracle', False), r.get('norm', True)) for r in reqs], tag=tag + 'v')
     return base, reqs, vres
 
